@@ -37,3 +37,8 @@ class CustomError(Exception):
 
 class CustomBase(BaseException):
     """An application-defined BaseException subclass."""
+
+
+def ident(v=None):
+    """Identity helper from untracked code (used to put expressions in argument positions)."""
+    return v
